@@ -5,9 +5,9 @@ package zzharness
 // network, raw-wire clients (plain proxying and CONNECT+TLS tunnels).
 
 import (
-	"compress/gzip"
 	"bufio"
 	"bytes"
+	"compress/gzip"
 	"context"
 	"crypto/ecdsa"
 	"crypto/elliptic"
@@ -46,56 +46,57 @@ import (
 )
 
 type PRes struct {
-	Host        string      `json:"host"`
-	Path        string      `json:"path"`
-	Size        int         `json:"size"`
-	CC          []string    `json:"cc,omitempty"`      // Cache-Control header lines
-	Expires     string      `json:"expires,omitempty"` // literal value, or "+<sec>" / "-<sec>" relative to the response instant
-	ETag        string      `json:"etag,omitempty"`    // "strong" | "weak" | ""
-	LastMod     bool        `json:"lastmod,omitempty"`
-	Status      int         `json:"status,omitempty"`
-	RangeMode   string      `json:"range,omitempty"`         // "ignore" (default) | "honor" | "416"
-	SizeStep    int         `json:"size_step,omitempty"` // every new version of the representation is this much longer
-	Hdr416      string      `json:"hdr416,omitempty"`        // cache headers of a 416 answer: "" (the resource's own) | "none" | "no-store" | "max-age=3600"
-	CondMode    string      `json:"cond,omitempty"`          // "304" (default: proper revalidation) | "200" | "404" | "500"
-	LastModForm string       `json:"lastmod_form,omitempty"` // "" IMF-fixdate | rfc850 | asctime (obsolete forms a recipient must accept) | junk
-	Gzip        bool         `json:"gzip,omitempty"` // the origin compresses the representation (Content-Encoding: gzip) for requests that accept gzip
-	EvictOnCond bool        `json:"evict_on_cond,omitempty"` // the stored entries are deleted while a conditional request for this resource is at the origin
-	BumpAtMs    []int64     `json:"bump_at,omitempty"`
-	BumpEvery   int         `json:"bump_every,omitempty"`
-	Extra       [][2]string `json:"extra,omitempty"`
-	Chunk       int         `json:"chunk,omitempty"`
-	AbortAt     int         `json:"abort_at,omitempty"`  // >0: connection dropped after this many body bytes (first AbortN responses)
-	AbortN      int         `json:"abort_n,omitempty"`   // how many responses are aborted (default 1 when AbortAt>0)
-	NoLength    bool        `json:"no_length,omitempty"` // chunked transfer, no Content-Length
-	Redirect    int         `json:"redirect,omitempty"`  // answer 302 to resource index Redirect-1
-	Wild        bool        `json:"wild,omitempty"`      // answers any path of this host; body identity = hash of the received target
-	NoDate      bool        `json:"no_date,omitempty"`
-	DateSkewS   int         `json:"date_skew_s,omitempty"` // the origin's Date header lies this many seconds in the past (negative: future): an aged response, a lagging clock
-	NoCloseEcho bool        `json:"no_close_echo,omitempty"` // raw responses: do not echo "close" although asked (the connection is closed anyway)
+	Host           string      `json:"host"`
+	Path           string      `json:"path"`
+	Size           int         `json:"size"`
+	CC             []string    `json:"cc,omitempty"`      // Cache-Control header lines
+	Expires        string      `json:"expires,omitempty"` // literal value, or "+<sec>" / "-<sec>" relative to the response instant
+	ETag           string      `json:"etag,omitempty"`    // "strong" | "weak" | ""
+	LastMod        bool        `json:"lastmod,omitempty"`
+	Status         int         `json:"status,omitempty"`
+	RangeMode      string      `json:"range,omitempty"`            // "ignore" (default) | "honor" | "416"
+	SizeStep       int         `json:"size_step,omitempty"`        // every new version of the representation is this much longer
+	Hdr416         string      `json:"hdr416,omitempty"`           // cache headers of a 416 answer: "" (the resource's own) | "none" | "no-store" | "max-age=3600"
+	CondMode       string      `json:"cond,omitempty"`             // "304" (default: proper revalidation) | "200" | "404" | "500"
+	AbortAfterHead bool        `json:"abort_after_head,omitempty"` // the origin sends the complete head and drops the connection before the first body byte (AbortN times)
+	LastModForm    string      `json:"lastmod_form,omitempty"`     // "" IMF-fixdate | rfc850 | asctime (obsolete forms a recipient must accept) | junk
+	Gzip           bool        `json:"gzip,omitempty"`             // the origin compresses the representation (Content-Encoding: gzip) for requests that accept gzip
+	EvictOnCond    bool        `json:"evict_on_cond,omitempty"`    // the stored entries are deleted while a conditional request for this resource is at the origin
+	BumpAtMs       []int64     `json:"bump_at,omitempty"`
+	BumpEvery      int         `json:"bump_every,omitempty"`
+	Extra          [][2]string `json:"extra,omitempty"`
+	Chunk          int         `json:"chunk,omitempty"`
+	AbortAt        int         `json:"abort_at,omitempty"`  // >0: connection dropped after this many body bytes (first AbortN responses)
+	AbortN         int         `json:"abort_n,omitempty"`   // how many responses are aborted (default 1 when AbortAt>0)
+	NoLength       bool        `json:"no_length,omitempty"` // chunked transfer, no Content-Length
+	Redirect       int         `json:"redirect,omitempty"`  // answer 302 to resource index Redirect-1
+	Wild           bool        `json:"wild,omitempty"`      // answers any path of this host; body identity = hash of the received target
+	NoDate         bool        `json:"no_date,omitempty"`
+	DateSkewS      int         `json:"date_skew_s,omitempty"`   // the origin's Date header lies this many seconds in the past (negative: future): an aged response, a lagging clock
+	NoCloseEcho    bool        `json:"no_close_echo,omitempty"` // raw responses: do not echo "close" although asked (the connection is closed anyway)
 }
 
 type PReq struct {
-	Res        int         `json:"res"`
-	Method     string      `json:"method,omitempty"`
-	Target     string      `json:"target,omitempty"` // raw path+query override (wild resources)
-	HostHdr    string      `json:"host_hdr,omitempty"`
-	Range      string      `json:"range,omitempty"`
-	IfRange    string      `json:"if_range,omitempty"` // literal; "@etag" / "@lastmod" are replaced by the validators of the last response this client saw
-	Hdr        [][2]string `json:"hdr,omitempty"`
-	AtMs       int64       `json:"at,omitempty"`
-	HelloDelayMs int64     `json:"hello_delay,omitempty"` // tunnel: time between the proxy's 200 and the client's ClientHello
-	ReadChunk  int         `json:"read_chunk,omitempty"`
-	Disconnect int         `json:"disconnect,omitempty"` // 0 none; -1 right after sending; k>0 after k body bytes
-	Body       int         `json:"body,omitempty"`       // request body length
-	ChunkedReq bool        `json:"chunked_req,omitempty"`
-	SameConn   bool        `json:"same_conn,omitempty"` // reuse the previous connection/tunnel of this client
-	BodyIsRequest bool `json:",omitempty"` // the content is itself a well-formed GET for resource 0
-	PipeNext   bool        `json:"pipe_next,omitempty"` // sent in one write together with the following request (same connection): HTTP/1.1 pipelining
-	Truncate   int         `json:"truncate,omitempty"`  // pseudo request: every cache file loses its last n bytes (a damaged disk)
-	Evict      bool        `json:"evict,omitempty"`     // pseudo request: delete every stored entry (an eviction placed by the scheduler)
-	Raw        string      `json:"raw,omitempty"`       // literal request bytes (C16)
-	Cfg        string      `json:"cfg,omitempty"`       // pseudo request: apply this update document to the running configuration
+	Res           int         `json:"res"`
+	Method        string      `json:"method,omitempty"`
+	Target        string      `json:"target,omitempty"` // raw path+query override (wild resources)
+	HostHdr       string      `json:"host_hdr,omitempty"`
+	Range         string      `json:"range,omitempty"`
+	IfRange       string      `json:"if_range,omitempty"` // literal; "@etag" / "@lastmod" are replaced by the validators of the last response this client saw
+	Hdr           [][2]string `json:"hdr,omitempty"`
+	AtMs          int64       `json:"at,omitempty"`
+	HelloDelayMs  int64       `json:"hello_delay,omitempty"` // tunnel: time between the proxy's 200 and the client's ClientHello
+	ReadChunk     int         `json:"read_chunk,omitempty"`
+	Disconnect    int         `json:"disconnect,omitempty"` // 0 none; -1 right after sending; k>0 after k body bytes
+	Body          int         `json:"body,omitempty"`       // request body length
+	ChunkedReq    bool        `json:"chunked_req,omitempty"`
+	SameConn      bool        `json:"same_conn,omitempty"` // reuse the previous connection/tunnel of this client
+	BodyIsRequest bool        `json:",omitempty"`          // the content is itself a well-formed GET for resource 0
+	PipeNext      bool        `json:"pipe_next,omitempty"` // sent in one write together with the following request (same connection): HTTP/1.1 pipelining
+	Truncate      int         `json:"truncate,omitempty"`  // pseudo request: every cache file loses its last n bytes (a damaged disk)
+	Evict         bool        `json:"evict,omitempty"`     // pseudo request: delete every stored entry (an eviction placed by the scheduler)
+	Raw           string      `json:"raw,omitempty"`       // literal request bytes (C16)
+	Cfg           string      `json:"cfg,omitempty"`       // pseudo request: apply this update document to the running configuration
 }
 
 type ProxyPlan struct {
@@ -165,7 +166,7 @@ func (w *proxyWorld) lingerForUnsolicited(cc *clientConn) string {
 }
 
 type Exch struct {
-	Unsolicited string // bytes that arrived after the complete response although the client had said "Connection: close"
+	Unsolicited   string // bytes that arrived after the complete response although the client had said "Connection: close"
 	Client, Idx   int
 	Req           PReq
 	Method        string
@@ -623,6 +624,29 @@ func (w *proxyWorld) originHandler(rw http.ResponseWriter, req *http.Request) {
 		e.Finished = true
 		e.DoneSeq = w.nextSeq()
 		return
+	}
+	if r.AbortAfterHead {
+		n := r.AbortN
+		if n == 0 {
+			n = 1
+		}
+		w.mu.Lock()
+		doIt := w.aborted[ri] < n
+		if doIt {
+			w.aborted[ri]++
+		}
+		w.mu.Unlock()
+		if doIt {
+			// the complete head, announcing a body, and then nothing: the connection goes away
+			if fl != nil {
+				fl.Flush()
+			}
+			e.Aborted = true
+			e.DoneSeq = w.nextSeq()
+			w.res.fault("origin_abort_after_head")
+			w.sim.Yield("harness:origin-abort")
+			panic(http.ErrAbortHandler)
+		}
 	}
 	chunk := r.Chunk
 	if chunk <= 0 || chunk > len(out) {
